@@ -33,8 +33,17 @@ type c11Block struct {
 	Sec   []secLine
 }
 
+// c11VarOp: an operator may be written "VARIABLES|operator" to choose the variable list of its SecRule line
+func c11VarOp(op string) (vars, oper string) {
+	if i := strings.Index(op, "|"); i >= 0 {
+		return op[:i], op[i+1:]
+	}
+	return "ARGS", op
+}
+
 func c11Sec(indent, op, operand string) (string, int, int) {
-	pre := indent + `SecRule ARGS "` + op + " "
+	vars, op := c11VarOp(op)
+	pre := indent + `SecRule ` + vars + ` "` + op + " "
 	return pre + operand + `" \`, len(pre), len(pre) + len(operand)
 }
 
@@ -55,7 +64,8 @@ func c11Rule(id, op, operand string, extra int, chain []string) c11Block {
 	for k, cop := range chain {
 		ind := strings.Repeat("    ", k+1)
 		l, s, e := c11Sec(ind, cop, fmt.Sprintf("LINK%d", k+1))
-		b.Sec = append(b.Sec, secLine{id, k + 1, cop, len(b.Lines), s, e})
+		_, plainOp := c11VarOp(cop)
+		b.Sec = append(b.Sec, secLine{id, k + 1, plainOp, len(b.Lines), s, e})
 		b.Lines = append(b.Lines, l)
 		if k < len(chain)-1 {
 			b.Lines = append(b.Lines, ind+`    "t:none,\`, ind+`    chain"`)
@@ -89,6 +99,10 @@ func c11Blocks(thorough bool) []c11Block {
 	// stored operands that start or end with white space, an empty one, and one whose text also occurs earlier in its line
 	bs = append(bs, c11Rule(c11R, "@rx", "  lead", 0, nil), c11Rule(c11R, "!@rx", "trail \t", 0, nil), c11Rule(c11R, "@rx", "", 0, nil), c11Rule(c11R, "@rx", "ARGS", 0, nil), c11Rule(c11R, "@rx", "S", 0, []string{"@rx"}))
 	for _, chain := range [][]string{{"@rx"}, {"@pm"}, {"@rx", "@rx"}, {"@pm", "@rx"}, {"@rx", "@pm", "@rx"}} {
+		bs = append(bs, c11Rule(c11R, "@rx", "OLD", 0, chain))
+	}
+	// chained rules whose variable list starts with & or ! (counted like every other SecRule line)
+	for _, chain := range [][]string{{"&TX:foo|@eq", "@rx"}, {"!ARGS:x|@rx", "@rx"}, {"@rx", "&TX:n|@eq", "@rx"}} {
 		bs = append(bs, c11Rule(c11R, "@rx", "OLD", 0, chain))
 	}
 	bs = append(bs, c11Rule("123457", "@pm", "OLDN", 0, []string{"@rx"}))
@@ -492,6 +506,42 @@ func C11(r *core.Run) {
 	})
 	deaths = append(deaths, d6...)
 	offs = append(offs, sibling...)
+	// the rules file is a symbolic link, or has a second name (hard link): update rewrites the file, not the directory entry
+	links, d7 := core.Parallel(r, "links", spec, 1, func(in in, shard, n int, emit func(offRes)) {
+		sb := filepath.Join(in.Dir, "links")
+		rf := func(re string) string { return rulesFile(ruleSpec{ID: "123456", Regex: re}) }
+		for _, kind := range []string{"symbolic link", "hard link"} {
+			for _, mode := range []string{"123456", "--all"} {
+				os.RemoveAll(sb)
+				t := core.Tree{"regex-assembly/123456.ra": "fresh\n", "shared/rules-123.conf": rf("OLD"), "rules/": ""}
+				if kind == "symbolic link" {
+					t["rules/REQUEST-123-TEST.conf"] = core.LinkPrefix + "../shared/rules-123.conf"
+				}
+				t.Materialise(sb)
+				name := filepath.Join(sb, "rules/REQUEST-123-TEST.conf")
+				if kind == "hard link" {
+					os.Link(filepath.Join(sb, "shared/rules-123.conf"), name)
+				}
+				rc := core.RunCLI(r.Crs, sb, "", nil, "-d", sb, "regex", "update", mode)
+				a, _ := os.ReadFile(name)
+				b, _ := os.ReadFile(filepath.Join(sb, "shared/rules-123.conf"))
+				st, _ := os.Lstat(name)
+				stillLink := kind != "symbolic link" || (st != nil && st.Mode()&os.ModeSymlink != 0)
+				extra := []string{}
+				if es, err := os.ReadDir(filepath.Join(sb, "rules")); err == nil {
+					for _, e := range es {
+						if e.Name() != "REQUEST-123-TEST.conf" {
+							extra = append(extra, e.Name())
+						}
+					}
+				}
+				ok := rc.Exit == 0 && string(a) == rf("fresh") && string(b) == rf("fresh") && stillLink && len(extra) == 0
+				emit(offRes{"rules file that is a " + kind, mode, ok, fmt.Sprintf("exit %d; through rules/: %q..., the other name: %q..., still a link: %v, other entries in rules/: %v", rc.Exit, tailStr(string(a), 30), tailStr(string(b), 30), stillLink, extra)})
+			}
+		}
+	})
+	deaths = append(deaths, d7...)
+	offs = append(offs, links...)
 	deaths = append(deaths, d4...)
 	offs = append(offs, multi...)
 	deaths = append(deaths, d3...)
